@@ -843,6 +843,45 @@ def wave10_rules(ctx):
     return obs
 
 
+def wave11_rules(ctx):
+    """obligations added after the eleventh wave of seeded changes"""
+    ob = ctx.ob
+    tc = ctx.tc
+    obs = []
+    # what a `wx:` directive means does not depend on where it stands in the tag: the arm that stores one directive looks at its own
+    # slot only (duplicate check), never at whether another directive has been read yet
+    ep = [f for f in tc.fns if f.base == "Element" and f.name == "parse" and f.body and f.module[:1] == ["parse"]]
+    if not ep:
+        return [ob("C05.attrs/order-independent/anchor", False, "parse/tag.rs", "Element::parse not found")]
+    f = ep[0]
+    best = None
+    for n in sir.walk(f.body, into_closures=True):
+        if n.get("k") == "match":
+            vs = [v for a in n["arms"] for v in sir.pat_variants(a["pat"])]
+            if sum(1 for v in vs if v.startswith("Wx")) >= 5:
+                best = n
+    if best is None:
+        return [ob("C05.attrs/order-independent", None, ctx.where(f), "the dispatch over the attribute prefix kinds is not a match this rule reads")]
+    assigned = {}
+    for a in best["arms"]:
+        vs = [v for v in sir.pat_variants(a["pat"]) if v.startswith("Wx")]
+        if not vs:
+            continue
+        as_ = set(sir.expr_str(x["l"]) for x in sir.walk(a["body"], into_closures=True) if x.get("k") == "assign" and x["l"].get("k") == "path" and len(x["l"]["segs"]) == 1)
+        assigned[vs[0]] = (a, as_)
+    slots = set().union(*[s_ for _a, s_ in assigned.values()]) if assigned else set()
+    cross = []
+    for v, (a, as_) in sorted(assigned.items()):
+        reads = set(x["s"] for x in sir.walk(a["body"], into_closures=True) if x.get("k") == "path" and len(x["segs"]) == 1 and x["s"] in slots)
+        other = sorted(reads - as_)
+        if other:
+            cross.append("the arm for %s looks at %s" % (v, other))
+    obs.append(ob("C05.attrs/order-independent", (not cross) if len(assigned) >= 5 else None, ctx.where(f),
+                  "; ".join(cross) if cross else "%d directive arms, each reads and writes its own slot only" % len(assigned),
+                  witness=None if not cross else '<block wx:for-item="x" wx:for="{{l}}">{{x}}</block>: written before wx:for the rename is dropped and {{x}} reads data.x'))
+    return obs
+
+
 def wave9_rules(ctx):
     """obligations added after the ninth wave of seeded changes"""
     import absint as ai
@@ -937,6 +976,7 @@ def run(ctx):
     obs += wave8_rules(ctx)
     obs += wave9_rules(ctx)
     obs += wave10_rules(ctx)
+    obs += wave11_rules(ctx)
     n_children = sum(1 for o in obs if o["key"].startswith("C05.children/"))
     if n_children < 88:
         obs.append(ctx.ob("C05.floor/children", False, "parse/expr.rs", "only %d variant x iterator obligations (floor 88 = 44 variants x 2 iterators)" % n_children))
